@@ -342,3 +342,24 @@ PLANS = {
                     "from the frame's signal types) = the composition of the loader machine, the reference decoder, Lookup and ConstructArgs.",
     ),
 }
+
+# additions to the explanations after the seeded-change rounds (DESIGN 13.3): what the populations and relations gained
+ALSO = {
+    "C01": " Populations also hold: messages around the one-byte / 15-bit limits of every length field (253..258, 300, 1000, 32766..32769 bytes), control payloads with service ids above 15, empty network-trace slices, trailing data up to k x 64 KiB.",
+    "C02": " Also: Message::new(conf).as_bytes() = EncMessage(NewMessage(conf)) (operation layout); messages at the head of buffers of k x 64 KiB + {0, 1, len - 1} bytes.",
+    "C03": " Also: every 16-bit length field of an argument at its extremes (alone and in pairs passing 65535), message type x declared length combinations, the filter-configuration conversion under catch_unwind.",
+    "C04": " The frame may start at any occurrence of the pattern (which occurrence is C06's subject).",
+    "C06": " Also an absolute relation: whatever a parse with storage header returns ends at the frame of the FIRST occurrence of the pattern; junk that is a run of one filler byte (16..95 bytes), junk that is itself a complete message without storage header, buffers of exactly k x 64 KiB + {0, 7, 15} bytes, the search with 65551..200000 bytes behind the pattern.",
+    "C07": " Also: no read_message result is a panic; every hostile piece of the C03 family heads its own stream; messages within 20 bytes of a power of two.",
+    "C08": " Also: streams of hostile pieces and of messages within 20 bytes of a power of two (2^8..2^15).",
+    "C10": " Also: id fields that are not valid UTF-8, ids differing in case or trailing blanks, 66 000 distinct ids, a fragmenting source.",
+    "C11": " Documents also vary: XML prolog (7 variants), BYTE-LENGTH values, self-closing empty elements, texts with entities / leading and trailing white space / blank-only text, ids >= 2^31, ids differing only in letter case, standard signal names re-declared as signals; consecutive loads go through the same slot paths.",
+    "C12": " Also: XML prolog variants, texts with entities, consecutive loads through the same slot paths, a 5.7 MB valid document under an 8 s bound.",
+    "C14": " Also: every header-type byte under declared lengths around the announced headers (if a message is returned, its flags are those of the byte).",
+    "C16": " The chain also starts from messages laid out by hand (not by the crate's writer): string / raw arguments of 0..4000 bytes, float arguments by bit pattern (signalling / quiet NaNs, infinities, -0, subnormals).",
+    "C17": " Thorough tier: the identities on the naturals are also proved by TLAPS (spec/proofs/TimestampArith.tla).",
+    "C19": " Also: a buffer ending inside an id field: incomplete with a hint no larger than the bytes missing in that field; id bytes incl. blank, tab, NBSP, invalid UTF-8.",
+}
+for _k, _v in ALSO.items():
+    PLANS[_k]["explanation"] += _v
+
